@@ -116,7 +116,15 @@ func c08Root(c *fw.C, d *Driver, root *mast.Root) {
 	// contents as encoded entries only: the same bytes under another Go key
 	// type or branch factor are the same contents (the converse direction,
 	// same contents => same name, depends on bf/format and is C04's subject)
-	fp := d.M.Fingerprint()
+	// ... as the tree itself shows them (not as the model says): what is asked is whether
+	// one root name is ever handed out for two different observable contents
+	keys, vals, derr := kinds.Dump(d.E.Ctx, d.T)
+	if derr != nil {
+		return
+	}
+	obs := kinds.NewModel(d.E.KK)
+	obs.Keys, obs.Vals = keys, vals
+	fp := obs.Fingerprint()
 	c.Obs("roots_recorded", 1)
 	c08mu.Lock()
 	defer c08mu.Unlock()
